@@ -9,7 +9,8 @@
 //
 //	"constraints": [{"c": int, "sql": .., "err": .., "noDist": "ok|err|panic", "noRepo": ..}],
 //	"source": {"base": sql for the record with a source package, "nilSource": {"sql","state"} for the plain record,
-//	           "empty": {"<string field of the package or its source>": {"sql","state"} with that field empty}}}
+//	           "empty": {"<string field of the package or its source>": {"sql","state"} with that field empty},
+//	           "versionFilter", "constraints": as above, for the record with a source package}}
 //
 // ("source" is what Gen/JoinQuery reads: the package / source-package clause and its guards.)
 package main
@@ -117,9 +118,11 @@ func main() {
 		RepoCPE       string `json:"repoCPE"`
 		Constraints   []one  `json:"constraints"`
 		Source        struct {
-			Base      string           `json:"base"`
-			NilSource built            `json:"nilSource"`
-			Empty     map[string]built `json:"empty"`
+			Base          string           `json:"base"`
+			NilSource     built            `json:"nilSource"`
+			Empty         map[string]built `json:"empty"`
+			VersionFilter string           `json:"versionFilter"`
+			Constraints   []one            `json:"constraints"` // as "constraints", for the record with a source package
 		} `json:"source"`
 	}
 	out.Base, _, _ = build(record(), &datastore.GetOpts{})
@@ -156,6 +159,21 @@ func main() {
 		b = built{}
 		b.SQL, _, b.State = build(r, &datastore.GetOpts{})
 		out.Source.Empty["Package.Source."+f.name] = b
+	}
+	out.Source.VersionFilter, _, _ = build(sourceRecord(), &datastore.GetOpts{VersionFiltering: true})
+	for _, c := range in.Constraints {
+		o := one{C: c}
+		opts := &datastore.GetOpts{Matchers: []driver.MatchConstraint{driver.MatchConstraint(c)}}
+		o.SQL, o.Err, o.State = build(sourceRecord(), opts)
+		r := sourceRecord()
+		r.Distribution = nil
+		_, _, o.NoDist = build(r, opts)
+		r = sourceRecord()
+		r.Repository = nil
+		_, _, o.NoRepo = build(r, opts)
+		two, _, _ := build(sourceRecord(), &datastore.GetOpts{Matchers: []driver.MatchConstraint{driver.MatchConstraint(c), driver.MatchConstraint(c)}})
+		o.Twice = two == o.SQL
+		out.Source.Constraints = append(out.Source.Constraints, o)
 	}
 	json.NewEncoder(os.Stdout).Encode(out)
 }
